@@ -495,6 +495,14 @@ func (p *Plain) Case(c any, run func(x *Ctx)) bool {
 	}()
 	r := rec(p.Prop, p.Leg)
 	r.commit(x, func() any { return c })
+	if Replaying() {
+		for _, k := range x.known {
+			fmt.Printf("REPLAY-KNOWN sig=%s msg=%s\n", k.Sig, oneLine(k.Msg))
+		}
+		if x.viol != nil {
+			fmt.Printf("REPLAY-VIOLATION sig=%s msg=%s\n", x.viol.Sig, oneLine(x.viol.Msg))
+		}
+	}
 	if x.viol != nil && !p.failed {
 		p.failed = true
 		cb, _ := json.Marshal(c)
